@@ -18,6 +18,10 @@ tier); Hypothesis generates the surrounding database shape, MTUs, value kinds an
 secrets, and additional random programs of cells (including two requests in flight on the
 two bearers at the same time).
 
+Further families (see RULE): 'states' - nine more link-security states (authenticated flag without encryption,
+encryption mode 2, the two links of the victim in different states, also with the same read in flight on both) -
+and 'forms' - more parameter forms of the listed operations plus Prepare/Execute Write and Signed Write Command.
+
 Failure signatures: <clause>/<refusal class>/<ATT operation>, clauses disclosed / changed /
 unanswered / bad_answer / over_blocked.  The triggers of known finding F11a (a value with no read
 permission bit at all is returned to the peer; a pinned test depends on that) are excluded by
@@ -57,7 +61,20 @@ RULE = (
     'that direction is set; distinct by (kind, mask, security, path, bearer). downgrade histories (plain loops): for '
     'characteristic values and descriptors x 3 requirement masks per direction x bearer x every ordered pair of paths '
     'of one direction: the first access on an encrypted+authenticated link (granted), the second on the same '
-    'attribute and bearer after the link security went down (refused).'
+    'attribute and bearer after the link security went down (refused). '
+    'states (plain loops, like the matrix: everything in thorough, one mask in 36 per (kind, path, bearer, state) in '
+    'quick): masked kinds x all 256 masks x every path x bearer x nine further link-security states: the '
+    'authenticated flag on a link whose encryption is off; Connection.encryption == 2 without / with the '
+    'authenticated flag; and the six ordered pairs of different base states for (link of the request, the '
+    "victim's other link). Plus directed pairs in flight: the same read on both bearers at once while exactly one "
+    'of the two links meets the requirement (3 requirement masks x value/descriptor x bearer x read path x 4 states). '
+    'forms (plain loops; everything in thorough, one mask in 18 in quick): masked kinds x all 256 masks x bearer x '
+    'base state x {Read By Type / Read By Group Type with the 16-bit type written as 128-bit UUID, with a range of '
+    'exactly the target handle; Read Multiple (Variable) with the target first before an open attribute / in the '
+    'middle of three handles; Read Blob at the last byte, at offset == length, and on a value that is not long; Write '
+    'Request / Command with a zero-length value; Prepare Write + Execute Write; Signed Write Command}. Programs draw '
+    'a quarter of their states and paths from these. In a third of the worlds the mask is put on the target through '
+    'Attribute.Permissions.from_string() of the flag names (comma or | separated) instead of Permissions(mask).'
 )
 ASSUMPTIONS = [
     'link security is set on the documented attributes Connection.encryption / Connection.authenticated '
@@ -89,6 +106,21 @@ ASSUMPTIONS = [
     'not run; they are counted under excluded_by_known_finding (a few are run when known_findings.json lists the '
     'signature, to print the KNOWN-FINDING line). Writes to attributes with no write permission bit at all '
     '(declarations, read-only values) are judged',
+    'the two facts the code consults are independent: "encrypted" = Connection.encryption != 0 (1 and 2 are both '
+    'encrypted), "authenticated" = Connection.authenticated. A link with the authenticated flag but no encryption '
+    '(the flag is not cleared by an Encryption Change to off) never meets an encryption requirement; whether it '
+    'meets an authentication requirement the statement leaves open: such cells pass under either reading',
+    "only the security of the link that carries the request counts; the state of the victim's other links is "
+    'irrelevant to the rule (EATT bearer: the link under the channel)',
+    'Prepare Write / Execute Write and Signed Write Command are not among the operations the statement lists (this '
+    'server answers Request Not Supported / ignores them): for them only "can change it only if it is writable and '
+    'the link meets the write requirement" and non-disclosure are judged, not the answer and not that a permitted '
+    'write takes effect',
+    'Read Blob on a value that is not long: Attribute Not Long is an applicable error besides the permission '
+    'error (refused), and an acceptable answer when reading is granted; at offset == length a granted Read Blob '
+    'only has to be answered; a repeated handle in Read Multiple is not judged beyond the target value',
+    'a permission string that from_string() rejects is not a property violation (nothing can be accessed); the '
+    'floors on pform:* make a generator that never gets a string accepted a harness error',
 ]
 SHRINK_KEYS = ('cells',)
 
@@ -100,7 +132,28 @@ R_ENC, W_ENC, R_AUTHN, W_AUTHN, R_AUTHZ, W_AUTHZ = 0x04, 0x08, 0x10, 0x20, 0x40,
 E_READ_NOT_PERMITTED, E_WRITE_NOT_PERMITTED = 0x02, 0x03
 E_AUTHN, E_AUTHZ, E_ENC, E_NOT_FOUND = 0x05, 0x08, 0x0F, 0x0A
 
-SEC = ('plain', 'encrypted', 'authenticated')
+# Link security states: (name, (Connection.encryption, Connection.authenticated) of the link that carries the
+# request, the same for the victim's other link). 0..2 are the three states of the quantifier with all links alike.
+# 3: the 'authenticated' flag on a link whose encryption is off (what an Encryption Change event with encryption
+# off leaves behind: Device.on_connection_encryption_change only assigns .encryption; also BR/EDR authentication
+# without encryption). 4, 5: Connection.encryption == 2 (AES-CCM value of the HCI Encryption Change event) instead
+# of 1. 6..11: the link of the request and the victim's other link are in different base states.
+_P, _E, _A = (0, False), (1, False), (1, True)
+SEC_STATES = (
+    ('plain', _P, _P), ('encrypted', _E, _E), ('authenticated', _A, _A),
+    ('authn_flag_unencrypted', (0, True), (0, True)),
+    ('encrypted_mode2', (2, False), (2, False)), ('authenticated_mode2', (2, True), (2, True)),
+    ('plain_beside_encrypted', _P, _E), ('plain_beside_authenticated', _P, _A),
+    ('encrypted_beside_plain', _E, _P), ('encrypted_beside_authenticated', _E, _A),
+    ('authenticated_beside_plain', _A, _P), ('authenticated_beside_encrypted', _A, _E),
+)
+SEC = tuple(s[0] for s in SEC_STATES)
+BASE_SEC = (0, 1, 2)
+EXTRA_SEC = tuple(range(3, len(SEC_STATES)))
+SEC_OPEN_AUTHN = 3
+# the same pair of links seen from the other link (requests in flight on both bearers at once)
+MIRROR = {6: 8, 8: 6, 7: 10, 10: 7, 9: 11, 11: 9}
+_BASE_OF = {_P: 0, _E: 1, _A: 2}
 BEARERS = ('fixed', 'eatt')
 
 T16, D16 = 0xA0C1, 0xA0D1  # types of the open/target characteristic values and descriptors
@@ -121,6 +174,20 @@ MASKED_KINDS = ('char', 'desc', 'group')
 DECL_KINDS = ('decl_service', 'decl_char', 'decl_include')
 ALL_PATHS = sorted({p for ps in PATHS.values() for p in ps})
 
+# Further parameter forms of the same operations, and the writing operations the statement does not list
+# (family 'forms'): the attribute type written as a 128-bit UUID, a range of exactly the target handle, handle
+# lists with the target first / in the middle of three, Read Blob at the last byte / at the end of a long value / on
+# a value that is not long, writes of a zero-length value, Prepare Write + Execute Write, Signed Write Command.
+VALUE_FORM_PATHS = ('rbt_128', 'rbt_exact', 'rm_first', 'rm_mid', 'rmv_first', 'rmv_mid', 'blob_last', 'blob_end',
+                    'blob_short', 'write_req_empty', 'write_cmd_empty', 'prep_exec', 'signed_cmd')
+FORM_PATHS = {
+    'char': VALUE_FORM_PATHS,
+    'desc': VALUE_FORM_PATHS,
+    'group': ('rbt_128', 'rbgt_128', 'rbgt_exact', 'rm_first', 'rm_mid', 'rmv_first', 'write_req_empty',
+              'write_cmd_empty', 'prep_exec', 'signed_cmd'),
+}
+ALL_FORM_PATHS = sorted({p for ps in FORM_PATHS.values() for p in ps})
+
 OP_OF = {
     'read': ('read', 0x0A), 'blob0': ('read_blob', 0x0C), 'blobk': ('read_blob', 0x0C),
     'rbt_first': ('read_by_type', 0x08), 'rbt_second': ('read_by_type', 0x08),
@@ -129,15 +196,34 @@ OP_OF = {
     'rmv_alone': ('read_multiple_variable', 0x20), 'rmv_with': ('read_multiple_variable', 0x20),
     'fbtv_eq': ('find_by_type_value', 0x06), 'fbtv_ne': ('find_by_type_value', 0x06),
     'write_req': ('write_request', 0x12), 'write_cmd': ('write_command', 0x52),
+    'rbt_128': ('read_by_type', 0x08), 'rbt_exact': ('read_by_type', 0x08),
+    'rbgt_128': ('read_by_group_type', 0x10), 'rbgt_exact': ('read_by_group_type', 0x10),
+    'rm_first': ('read_multiple', 0x0E), 'rm_mid': ('read_multiple', 0x0E),
+    'rmv_first': ('read_multiple_variable', 0x20), 'rmv_mid': ('read_multiple_variable', 0x20),
+    'blob_last': ('read_blob', 0x0C), 'blob_end': ('read_blob', 0x0C), 'blob_short': ('read_blob', 0x0C),
+    'write_req_empty': ('write_request', 0x12), 'write_cmd_empty': ('write_command', 0x52),
+    'prep_exec': ('prepare_execute_write', 0x16), 'signed_cmd': ('signed_write_command', 0xD2),
 }
-WRITE_PATHS = ('write_req', 'write_cmd')
+BASE_WRITE_PATHS = ('write_req', 'write_cmd')
+WRITE_PATHS = BASE_WRITE_PATHS + ('write_req_empty', 'write_cmd_empty', 'prep_exec', 'signed_cmd')
+WRITE_REQUEST_PATHS = ('write_req', 'write_req_empty')
+# operations outside the statement's list: only "a peer can change the value only if ..." is judged for them
+UNLISTED_WRITE_PATHS = ('prep_exec', 'signed_cmd')
+BLOB_PATHS = ('blob0', 'blobk', 'blob_last', 'blob_end', 'blob_short')
 BLOB_OFFSET = 7
+E_INVALID_OFFSET, E_NOT_LONG = 0x07, 0x0B
+UUID128_BASE = bytes.fromhex('fb349b5f8000008000100000')  # Bluetooth base UUID, little endian, without the 32 type bits
+PERM_NAMES = (
+    (0x01, 'READABLE'), (0x02, 'WRITEABLE'), (0x04, 'READ_REQUIRES_ENCRYPTION'), (0x08, 'WRITE_REQUIRES_ENCRYPTION'),
+    (0x10, 'READ_REQUIRES_AUTHENTICATION'), (0x20, 'WRITE_REQUIRES_AUTHENTICATION'),
+    (0x40, 'READ_REQUIRES_AUTHORIZATION'), (0x80, 'WRITE_REQUIRES_AUTHORIZATION'),
+)
 WAIT = 0.25  # virtual seconds given to the server after each request (longer than the async value delay)
 
 DEFAULT_WORLD = {
     'secret': bytes(range(0x80, 0x80 + 40)), 'open': bytes(range(0x30, 0x30 + 40)), 'slen': 12,
     'pre': [], 'post': [], 'tprops': 0x0A, 'vkind': 'static', 'mtu': 23, 'eatt_mtu': 64, 'gprimary': True,
-    'tsvc128': False,
+    'tsvc128': False, 'pform': 'flags',
 }
 
 
@@ -147,10 +233,21 @@ DEFAULT_WORLD = {
 # Convention of the code base (see ASSUMPTIONS): a requirement bit of a direction designates the attribute as
 # accessible in that direction once the requirement is met, with or without the plain READABLE/WRITEABLE bit.
 _convention = [False]
+# State SEC_OPEN_AUTHN (authenticated flag on an unencrypted link): the statement does not say whether such a link
+# "meets an authentication requirement"; judged under both readings (the flag counts / an unencrypted link is never
+# authenticated). An encryption requirement is unmet under both.
+_authn_needs_encryption = [False]
+
+
+def link_state(sec: int):
+    """(encrypted, authenticated) of the link that carries the request, as the rule sees it."""
+    enc, authn = SEC_STATES[sec][1]
+    encrypted = enc != 0
+    return encrypted, bool(authn) and (encrypted or not _authn_needs_encryption[0])
 
 
 def may_read(mask: int, sec: int) -> bool:
-    encrypted, authenticated = sec >= 1, sec >= 2
+    encrypted, authenticated = link_state(sec)
     return bool(
         mask & (READABLE | ((R_ENC | R_AUTHN | R_AUTHZ) if _convention[0] else 0))
         and (not mask & R_ENC or encrypted)
@@ -160,7 +257,7 @@ def may_read(mask: int, sec: int) -> bool:
 
 
 def may_write(mask: int, sec: int) -> bool:
-    encrypted, authenticated = sec >= 1, sec >= 2
+    encrypted, authenticated = link_state(sec)
     return bool(
         mask & (WRITEABLE | ((W_ENC | W_AUTHN | W_AUTHZ) if _convention[0] else 0))
         and (not mask & W_ENC or encrypted)
@@ -173,7 +270,7 @@ def refusal(mask: int, sec: int, write: bool):
     """(acceptable error codes, class) for a refused access. Classes: 'requirement' = a security
     requirement is unmet; 'plain_bit' = requirement bits of that direction are set and met, only the
     READABLE/WRITEABLE bit is missing; 'no_permission_bit' = no bit of that direction is set at all."""
-    encrypted, authenticated = sec >= 1, sec >= 2
+    encrypted, authenticated = link_state(sec)
     bit, enc, authn, authz, not_permitted = (
         (WRITEABLE, W_ENC, W_AUTHN, W_AUTHZ, E_WRITE_NOT_PERMITTED) if write
         else (READABLE, R_ENC, R_AUTHN, R_AUTHZ, E_READ_NOT_PERMITTED)
@@ -269,6 +366,75 @@ def _gcd(a, b):
     return a
 
 
+def _spread(cells):
+    n = len(cells)
+    step = 7919
+    while n and _gcd(step, n) != 1:
+        step += 2
+    return [cells[(j * step) % n] for j in range(n)]
+
+
+def state_cells(ctx):
+    """Family 'states': the matrix of the masked kinds (all 256 masks x every path x bearer) in the nine further
+    link-security states. Everything in the thorough tier (sharded by index); in the quick tier one mask in 36 per
+    (kind, path, bearer, state), rotated by the seed."""
+    cells = []
+    i = 0
+    for ki, kind in enumerate(MASKED_KINDS):
+        for mask in range(256):
+            for pi, path in enumerate(PATHS[kind]):
+                for bi, bearer in enumerate(BEARERS):
+                    for sec in EXTRA_SEC:
+                        i += 1
+                        if ctx.quick:
+                            if (mask + 5 * pi + 3 * bi + 7 * ki + 11 * sec + ctx.seed) % 36:
+                                continue
+                        elif i % ctx.nshards != ctx.shard:
+                            continue
+                        cells.append([kind, mask, sec, path, bearer])
+    return _spread(cells), i
+
+
+def cross_link_pairs(ctx):
+    """Directed steps for family 'states': the same read sent at once on both bearers while exactly one of the two
+    links meets the attribute's requirement (one answer must be a refusal, the other the value)."""
+    steps = []
+    i = 0
+    for kind in ('char', 'desc'):
+        for mask in (READABLE | R_ENC, READABLE | R_AUTHN, READABLE | WRITEABLE | R_ENC | R_AUTHN):
+            for bearer in BEARERS:
+                for path in PATHS[kind]:
+                    if path in WRITE_PATHS or 'second' in path or path in BLOB_PATHS:
+                        continue
+                    for sec in (7, 10, 9, 11) if mask & R_AUTHN else (6, 8, 7, 10):
+                        i += 1
+                        if (i % 4 != ctx.seed % 4) if ctx.quick else (i % ctx.nshards != ctx.shard):
+                            continue
+                        steps.append(['pair', [kind, mask, sec, path, bearer], path])
+    return steps
+
+
+def form_cells(ctx):
+    """Family 'forms': masked kinds x all 256 masks x the further parameter forms and unlisted write operations x
+    bearer x the three base security states. Everything in the thorough tier; one mask in 18 per
+    (kind, path, bearer, state) in the quick tier, rotated by the seed."""
+    cells = []
+    i = 0
+    for ki, kind in enumerate(MASKED_KINDS):
+        for mask in range(256):
+            for pi, path in enumerate(FORM_PATHS[kind]):
+                for bi, bearer in enumerate(BEARERS):
+                    for sec in BASE_SEC:
+                        i += 1
+                        if ctx.quick:
+                            if (mask + 5 * pi + 3 * bi + 7 * ki + 11 * sec + ctx.seed) % 18:
+                                continue
+                        elif i % ctx.nshards != ctx.shard:
+                            continue
+                        cells.append([kind, mask, sec, path, bearer])
+    return _spread(cells), i
+
+
 # ---------------------------------------------------------------------------
 # generators
 # ---------------------------------------------------------------------------
@@ -302,15 +468,22 @@ def world_strategy():
         'eatt_mtu': st.one_of(st.just(64), st.integers(65, 256)),
         'gprimary': st.booleans(),
         'tsvc128': st.booleans(),
+        # how the mask is put on the target: Permissions(mask), or Permissions.from_string() of the flag names
+        'pform': st.sampled_from(['flags', 'flags', 'comma', 'pipe']),
     })
 
 
 def cell_strategy():
     def paths_for(kind):
+        if kind in FORM_PATHS:
+            listed = st.sampled_from(PATHS[kind])
+            return st.one_of(listed, listed, listed, st.sampled_from(FORM_PATHS[kind]))
         return st.sampled_from(PATHS[kind])
 
+    base = st.integers(0, 2)
+    sec = st.one_of(base, base, base, st.sampled_from(EXTRA_SEC))
     masked = st.sampled_from(MASKED_KINDS).flatmap(
-        lambda k: st.tuples(st.just(k), st.integers(0, 255), st.integers(0, 2), paths_for(k), st.sampled_from(BEARERS))
+        lambda k: st.tuples(st.just(k), st.integers(0, 255), sec, paths_for(k), st.sampled_from(BEARERS))
     )
     decl = st.sampled_from(DECL_KINDS).flatmap(
         lambda k: st.tuples(st.just(k), st.just(READABLE), st.integers(0, 2), paths_for(k), st.sampled_from(BEARERS))
@@ -460,6 +633,7 @@ async def build_env(params) -> Env:
     await raw.start()
     conn_r = await raw.connect_to(victim)
     env.victim_conns = [conn_p, conn_r]
+    env.conn_of = {'eatt': conn_p, 'fixed': conn_r}  # the victim's link under each bearer
 
     spec = l2cap.LeCreditBasedChannelSpec(psm=att.EATT_PSM, mtu=int(params['eatt_mtu']))
     channels = await w[1].device.l2cap_channel_manager.create_enhanced_credit_based_channels(conn_c, spec, 1)
@@ -508,18 +682,26 @@ def plan_cell(env, cell):
         cap = {
             'rbt_second': (m - 2) // 2 - 2, 'rm_with': m - 1 - 8, 'rmv_alone': m - 3, 'rmv_with': m - 1 - 4 - 8,
             'fbtv_eq': m - 7, 'fbtv_ne': m - 7,
+            'rm_first': m - 1 - 8, 'rm_mid': m - 1 - 8, 'rmv_first': m - 1 - 4 - 8, 'rmv_mid': m - 1 - 6 - 8,
+            'blob_short': m - 1,
         }.get(path, 40)
         length = max(1, min(slen, cap))
         if path in ('blob0', 'blobk'):
             length = m + (mask % 5) + (BLOB_OFFSET if path == 'blobk' else 0)
+        elif path in ('blob_last', 'blob_end'):
+            length = m + (mask % 5)
     value = env.natural[kind] if kind in DECL_KINDS else _fit(bytes(p['secret']), length)
     # neighbour value length
     if path in ('rbt_second', 'rbgt_second'):
         nlen = length
-    elif path == 'rm_with':
+    elif path in ('rm_with', 'rm_first'):
         nlen = max(1, min(8, m - 1 - length))
-    elif path == 'rmv_with':
+    elif path in ('rmv_with', 'rmv_first'):
         nlen = max(1, min(8, m - 1 - 4 - length))
+    elif path == 'rm_mid':
+        nlen = max(1, min(4, (m - 1 - length) // 2))
+    elif path == 'rmv_mid':
+        nlen = max(1, min(4, (m - 1 - 6 - length) // 2))
     else:
         nlen = 8
     if neigh is env.og:
@@ -529,8 +711,42 @@ def plan_cell(env, cell):
     new_value = _fit(bytes(p['open'])[::-1], max(1, min(len(value) if kind in DECL_KINDS or kind == 'group' else 12, m - 3)))
     if new_value == value:
         new_value = bytes([new_value[0] ^ 1]) + new_value[1:]
+    if path in ('write_req_empty', 'write_cmd_empty'):
+        new_value = b''
+    elif path == 'signed_cmd':
+        new_value = new_value[:max(1, m - 15)]
     typ = env.types[kind]
-    if path == 'read':
+    typ128 = UUID128_BASE + struct.pack('<HH', typ, 0)
+    off = {'blob0': 0, 'blobk': BLOB_OFFSET, 'blob_last': length - 1, 'blob_end': length, 'blob_short': 0}.get(path)
+    req2 = None
+    if path in ('blob_last', 'blob_end', 'blob_short'):
+        req = struct.pack('<BHH', 0x0C, h, off)
+    elif path == 'rbt_128':
+        req = struct.pack('<BHH', 0x08, h, 0xFFFF) + typ128
+    elif path == 'rbt_exact':
+        req = struct.pack('<BHHH', 0x08, h, h, typ)
+    elif path == 'rbgt_128':
+        req = struct.pack('<BHH', 0x10, h, 0xFFFF) + typ128
+    elif path == 'rbgt_exact':
+        req = struct.pack('<BHHH', 0x10, h, h, typ)
+    elif path == 'rm_first':
+        req = struct.pack('<BHH', 0x0E, h, nh)
+    elif path == 'rm_mid':
+        req = struct.pack('<BHHH', 0x0E, nh, h, nh)
+    elif path == 'rmv_first':
+        req = struct.pack('<BHH', 0x20, h, nh)
+    elif path == 'rmv_mid':
+        req = struct.pack('<BHHH', 0x20, nh, h, nh)
+    elif path == 'write_req_empty':
+        req = struct.pack('<BH', 0x12, h)
+    elif path == 'write_cmd_empty':
+        req = struct.pack('<BH', 0x52, h)
+    elif path == 'prep_exec':
+        req = struct.pack('<BHH', 0x16, h, 0) + new_value  # Prepare Write Request at offset 0 ...
+        req2 = b'\x18\x01'                                  # ... then Execute Write Request: write the queue
+    elif path == 'signed_cmd':
+        req = struct.pack('<BH', 0xD2, h) + new_value + b'\x5a' * 12  # value + 12-byte authentication signature
+    elif path == 'read':
         req = struct.pack('<BH', 0x0A, h)
     elif path == 'blob0':
         req = struct.pack('<BHH', 0x0C, h, 0)
@@ -564,7 +780,8 @@ def plan_cell(env, cell):
         raise HarnessError(f'C11: unknown path {path}')
     if len(req) > m:
         raise HarnessError(f'C11: request for {cell} longer than ATT_MTU {m}')
-    return {'value': value, 'nvalue': nvalue, 'new': new_value, 'req': req, 'typ': typ, 'h': h, 'nh': nh, 'm': m}
+    return {'value': value, 'nvalue': nvalue, 'new': new_value, 'req': req, 'req2': req2, 'off': off, 'typ': typ,
+            'h': h, 'nh': nh, 'm': m}
 
 
 def install(env, cell, plan):
@@ -589,11 +806,23 @@ def install(env, cell, plan):
         env.neighbour[key].value = _fit(opened, 8)
     target = env.attrs[kind]
     target.permissions = perms(mask)
+    env.pform = 'flags'
+    form = p.get('pform', 'flags')
+    if form != 'flags' and mask and kind in MASKED_KINDS:
+        # the same flags declared by name, the way Attribute() takes them
+        names = ('|' if form == 'pipe' else ',').join(n for b, n in PERM_NAMES if mask & b)
+        try:
+            target.permissions = perms.from_string(names)
+            env.pform = form
+        except (KeyError, TypeError, ValueError):
+            env.pform = 'rejected'  # the attribute cannot be declared this way: nothing to judge, counted
     _set_value(env, kind, plan['value'])
     env.neighbour[kind].value = plan['nvalue']
+    this = env.conn_of[cell[4]]
     for conn in env.victim_conns:
-        conn.encryption = 1 if sec >= 1 else 0
-        conn.authenticated = sec >= 2
+        enc, authn = SEC_STATES[sec][1 if conn is this else 2]
+        conn.encryption = enc
+        conn.authenticated = authn
 
 
 def _set_value(env, key, value):
@@ -682,20 +911,30 @@ def judge(env, cell, plan, got, after, follow):
     """Oracle for one cell. Returns a list of (signature, what). Cells whose only reason for refusal is a missing
     READABLE/WRITEABLE bit while requirement bits of that direction are set and met ('plain_bit') are judged under
     both readings of "readable"/"writable" (strict bit, code-base convention); either one may hold."""
-    strict = _judge(env, cell, plan, got, after, follow)
-    if not strict:
-        return strict
     _kind, mask, sec, path, _bearer = cell
     write = path in WRITE_PATHS
-    if not (may_write if write else may_read)(mask, sec) and refusal(mask, sec, write)[1] == 'plain_bit':
-        _convention[0] = True
+    # the authenticated flag on an unencrypted link: does it meet an authentication requirement? both readings
+    readings = (False, True) if sec == SEC_OPEN_AUTHN and mask & (W_AUTHN if write else R_AUTHN) else (False,)
+    first = None
+    for needs_encryption in readings:
+        _authn_needs_encryption[0] = needs_encryption
         try:
-            lenient = _judge(env, cell, plan, got, after, follow)
+            strict = _judge(env, cell, plan, got, after, follow)
+            if strict and not (may_write if write else may_read)(mask, sec) and refusal(mask, sec, write)[1] == 'plain_bit':
+                _convention[0] = True
+                try:
+                    lenient = _judge(env, cell, plan, got, after, follow)
+                finally:
+                    _convention[0] = False
+                if not lenient:
+                    strict = []
         finally:
-            _convention[0] = False
-        if not lenient:
+            _authn_needs_encryption[0] = False
+        if not strict:
             return []
-    return strict
+        if first is None:
+            first = strict
+    return first
 
 
 def _judge(env, cell, plan, got, after, follow):
@@ -730,14 +969,16 @@ def _judge(env, cell, plan, got, after, follow):
 
     if write:
         if can_write:
+            if path in UNLISTED_WRITE_PATHS:
+                return out  # not an operation the statement lists: whether the server supports it is not judged
             if after != plan['new']:
                 out.append((f'over_blocked/write/{op}', f'{desc}: the rule grants writing but the server-side value did not take the written value'))
-            if path == 'write_req' and not (len(mine) == 1 and mine[0] == b'\x13'):
+            if path in WRITE_REQUEST_PATHS and not (len(mine) == 1 and mine[0] == b'\x13'):
                 out.append((f'over_blocked/write_answer/{op}', f'{desc}: granted Write Request not answered by exactly one Write Response: {_hex(mine)}'))
         else:
             if after != value:
                 out.append((f'changed/{w_class}/{w_site}', f'{desc}: the server-side value changed although the rule refuses writing'))
-            if path == 'write_req' and not out:  # (an answer to a write that took effect is not judged again)
+            if path in WRITE_REQUEST_PATHS and not out:  # (an answer to a write that took effect is not judged again)
                 if not mine:
                     out.append((f'unanswered/{op}', f'{desc}: refused Write Request got no answer'))
                 else:
@@ -761,6 +1002,8 @@ def _judge(env, cell, plan, got, after, follow):
             codes = set(r_codes)
             if op == 'find_by_type_value':
                 codes.add(E_NOT_FOUND)
+            if path == 'blob_short':
+                codes.add(E_NOT_LONG)  # also applies to this request: the value is not a long one
             if e is not None and e[0] == opcode and e[2] in codes:
                 ok = True
             elif e is None and path in ('rbt_second', 'rbgt_second'):
@@ -814,6 +1057,25 @@ def _delivered(path, opcode, plan, mine, follow):
     if path in ('blob0', 'blobk'):
         off = BLOB_OFFSET if path == 'blobk' else 0
         return pdu == b'\x0d' + value[off:off + m - 1] or 'the Read Blob Response does not carry the value part'
+    if path == 'blob_last':
+        return pdu == b'\x0d' + value[-1:] or 'the Read Blob Response does not carry the last byte of the value'
+    if path == 'blob_end':
+        # nothing is left to deliver at offset == length: any single answer to the request will do
+        return pdu[:1] == b'\x0d' or (len(pdu) == 5 and pdu[:2] == b'\x01\x0c') or 'the Read Blob Request was not answered'
+    if path == 'blob_short':
+        # a server may answer Attribute Not Long, or send the value
+        return (pdu == b'\x0d' + value or (len(pdu) == 5 and pdu[:2] == b'\x01\x0c' and pdu[4] == E_NOT_LONG)
+                or 'neither the value nor Attribute Not Long came back')
+    if path == 'rm_first':
+        return pdu == b'\x0f' + value + plan['nvalue'] or 'the Read Multiple Response does not carry both values'
+    if path == 'rm_mid':
+        # (what follows the target - the first handle a second time - is not judged)
+        return pdu.startswith(b'\x0f' + plan['nvalue'] + value) or 'the Read Multiple Response does not carry the value'
+    if path in ('rmv_first', 'rmv_mid'):
+        nv = plan['nvalue']
+        lv = lambda b: struct.pack('<H', len(b)) + b
+        want = b'\x21' + (lv(value) + lv(nv) if path == 'rmv_first' else lv(nv) + lv(value))
+        return pdu.startswith(want) or 'the Read Multiple Variable Response does not carry the value'
     if path == 'rm_alone':
         return pdu == b'\x0f' + value[:m - 1] or 'the Read Multiple Response does not carry the value'
     if path == 'rm_with':
@@ -862,6 +1124,12 @@ async def exec_cell(env, cell, second=None):
         _send(env, second[4], plan2['req'])
     await asyncio.sleep(WAIT)
     got = _collect(env)
+    if plan['req2'] is not None:
+        _send(env, bearer, plan['req2'])
+        await asyncio.sleep(WAIT)
+        more = _collect(env)
+        for key in got:
+            got[key] += more[key]
     after = _get_value(env, kind)
     follow = []
     if path in ('rbt_second', 'rbgt_second') and plan2 is None and len(got[bearer]) == 1:
@@ -889,6 +1157,25 @@ def classify(cell):
     granted = may_write(mask, sec) if write else may_read(mask, sec)
     req_bits = (W_ENC | W_AUTHN | W_AUTHZ) if write else (R_ENC | R_AUTHN | R_AUTHZ)
     labels = {f'path:{path}', f'sec:{SEC[sec]}', f'bearer:{bearer}', f'kind:{kind}'}
+    enc_bit, authn_bit = (W_ENC, W_AUTHN) if write else (R_ENC, R_AUTHN)
+    may = may_write if write else may_read
+    this, other = SEC_STATES[sec][1], SEC_STATES[sec][2]
+    if sec == SEC_OPEN_AUTHN:
+        if mask & enc_bit and may(mask, 2):
+            labels.add('state:authn_flag_unencrypted/refused_only_for_encryption')
+        if mask & authn_bit and not mask & enc_bit:
+            labels.add('state:authn_flag_unencrypted/open_authentication_requirement')
+    elif this[0] == 2:
+        if granted and mask & enc_bit:
+            labels.add('state:encryption_mode2/granted_with_encryption_requirement')
+    elif this != other:
+        elsewhere = may(mask, _BASE_OF[other])
+        if elsewhere and not granted:
+            labels.add('state:cross_link/refused_while_the_other_link_qualifies')
+        elif granted and not elsewhere and mask & (enc_bit | authn_bit):
+            labels.add('state:cross_link/granted_while_the_other_link_does_not_qualify')
+    if path in ALL_FORM_PATHS:
+        labels.add('family:forms')
     if not granted:
         labels.add('model:refused')
         labels.add('model:refused_' + refusal(mask, sec, write)[1])
@@ -914,7 +1201,8 @@ def run_program(ctx, params, steps, confirm=True) -> None:
             if step and step[0] == 'pair':
                 cell, second = list(step[1]), None
                 kind, mask, sec, _path, bearer = cell
-                second = [kind, mask, sec, step[2], 'eatt' if bearer == 'fixed' else 'fixed']
+                # (seen from the other link, a state with two different links is the mirrored one)
+                second = [kind, mask, MIRROR.get(int(sec), int(sec)), step[2], 'eatt' if bearer == 'fixed' else 'fixed']
             else:
                 cell, second = list(step), None
             cell[1], cell[2] = int(cell[1]), int(cell[2])
@@ -929,6 +1217,10 @@ def run_program(ctx, params, steps, confirm=True) -> None:
                 # two requests were in flight: judge each bearer's answer on its own
                 labels, nontrivial = classify(cell)
                 labels.add('pair_in_flight')
+                if cell[2] in MIRROR:
+                    labels.add('pair_in_flight_links_differ')
+                    if may_read(cell[1], cell[2]) != may_read(second[1], second[2]):
+                        labels.add('pair_in_flight_one_refused_one_granted')
                 verdicts = []
                 for c, pl in ((cell, plan), (second, plan2)):
                     # a leak is attributed to the request on whose bearer it arrived
@@ -944,6 +1236,8 @@ def run_program(ctx, params, steps, confirm=True) -> None:
             verdicts = judge(env, cell, plan, got, after, follow)
             labels, nontrivial = classify(cell)
             labels.add(f'vkind:{params["vkind"]}')
+            if cell[1] and cell[0] in MASKED_KINDS:
+                labels.add(f'pform:{env.pform}')
             if env.mtu[cell[4]] > 64:
                 labels.add('mtu_above_64')
             for sig, what in verdicts:
@@ -999,7 +1293,7 @@ def downgrade_programs(ctx):
     }
     i = 0
     for kind in ('char', 'desc'):
-        paths = {'read': [q for q in PATHS[kind] if q not in WRITE_PATHS], 'write': list(WRITE_PATHS)}
+        paths = {'read': [q for q in PATHS[kind] if q not in WRITE_PATHS], 'write': list(BASE_WRITE_PATHS)}
         for direction in ('read', 'write'):
             for mask in masks[direction]:
                 for bearer in BEARERS:
@@ -1046,6 +1340,30 @@ def run(ctx) -> None:
 
     ctx.hyp('programs', lambda d: run_program(ctx, d[0], d[1]), program_strategy(), max_examples=ctx.n(500, 48000))
 
+    # further link-security states (family 'states') and further parameter forms / unlisted writes (family 'forms'):
+    # enumerated like the matrix, each chunk in a Hypothesis-generated world
+    def chunks(name, steps):
+        todo = [steps[i:i + per_world] for i in range(0, len(steps), per_world)]
+
+        def one_world(params, todo=todo):
+            if todo:
+                run_program(ctx, params, todo.pop(0))
+
+        ctx.hyp(name, one_world, world_strategy(), max_examples=len(todo))
+        while todo:
+            run_program(ctx, DEFAULT_WORLD, todo.pop(0))
+
+    scells, stotal = state_cells(ctx)
+    pairs = cross_link_pairs(ctx)
+    chunks('state_worlds', scells + pairs)
+    ctx.extra['sum_state_cells_run'] = len(scells)
+    ctx.extra['state_cells_total'] = stotal
+    ctx.extra['sum_cross_link_pairs_run'] = len(pairs)
+    fcells, ftotal = form_cells(ctx)
+    chunks('form_worlds', fcells)
+    ctx.extra['sum_form_cells_run'] = len(fcells)
+    ctx.extra['form_cells_total'] = ftotal
+
     # security-downgrade histories (granted access, then the same attribute on a link that no longer qualifies)
     todo = list(downgrade_programs(ctx))
     ctx.extra['sum_downgrade_programs'] = len(todo)
@@ -1066,8 +1384,21 @@ def run(ctx) -> None:
 
     for path in ALL_PATHS:
         ctx.floor(f'path:{path}', 20)
-    for s in SEC:
+    for s in SEC[:3]:
         ctx.floor(f'sec:{s}', 200)
+    for s in SEC[3:]:
+        ctx.floor(f'sec:{s}', 100)
+    ctx.floor('state:authn_flag_unencrypted/refused_only_for_encryption', 20)
+    ctx.floor('state:authn_flag_unencrypted/open_authentication_requirement', 20)
+    ctx.floor('state:encryption_mode2/granted_with_encryption_requirement', 50)
+    ctx.floor('state:cross_link/refused_while_the_other_link_qualifies', 100)
+    ctx.floor('state:cross_link/granted_while_the_other_link_does_not_qualify', 50)
+    ctx.floor('pair_in_flight_one_refused_one_granted', 10)
+    for path in ALL_FORM_PATHS:
+        ctx.floor(f'path:{path}', 20)
+    ctx.floor('family:forms', 500)
+    for f in ('flags', 'comma', 'pipe'):
+        ctx.floor(f'pform:{f}', 100)
     for b in BEARERS:
         ctx.floor(f'bearer:{b}', 200)
     for k in MASKED_KINDS:
@@ -1079,7 +1410,7 @@ def run(ctx) -> None:
     ctx.floor('model:granted_with_requirement', 50)
     ctx.floor('model:granted_plain', 5)
     ctx.floor('pair_in_flight', 5)
-    ctx.floor('downgrade_history', 20)
+    ctx.floor('downgrade_history', 20 if ctx.nshards == 1 else 5)  # (about 10 programs per shard in the thorough tier)
     for v in ('static', 'dyn', 'dyn_async', 'v2'):
         ctx.floor(f'vkind:{v}', 5)
 
